@@ -122,7 +122,13 @@ func (g *G) peerNames(n int) []string { return g.peerNamesFrom(n, fancyNames) }
 
 // peerNamesWS: as peerNames, with white-space-edged names in the pool.
 func (g *G) peerNamesWS(n int) []string {
-	return g.peerNamesFrom(n, append(append([]string{}, fancyNames...), spaceNames...))
+	out := g.peerNamesFrom(n, append(append([]string{}, fancyNames...), spaceNames...))
+	if n > 0 && g.intn(3) == 0 {
+		// the empty string is a name like any other (an empty CSV field)
+		out[g.intn(n)] = ""
+		g.count("names:empty-string-name")
+	}
+	return out
 }
 
 func (g *G) peerNamesFrom(n int, pool []string) []string {
@@ -275,6 +281,14 @@ func runUploads(h *H, prop string, n int) {
 		}
 		g.count("pretrusted:" + sub)
 		hunch := strconv.Itoa(g.intn(100) + 1)
+		switch g.intn(8) {
+		case 0: // other decimal spellings of the same whole percentage (strconv.Atoi reads them alike)
+			hunch = g.pick("0", "00", "+") + hunch
+			g.count("hunch:padded-or-signed")
+		case 1:
+			hunch = g.pick(" "+hunch, hunch+" ", hunch+".0", "0x"+hunch, "1_0", "0b101", "0o17")
+			g.count("hunch:not-a-plain-integer")
+		}
 		hp := &hunch
 		sel := g.intn(12)
 		emptyNames := false
